@@ -49,7 +49,10 @@ ASSUMPTIONS = [
 EXHAUSTIVE = {"quick": False, "thorough": False}
 FINDING_CLASSES = {1: "save-skip-none-null-over-default",   # class 2 (skip-default-trims-dict-leaf) repaired: /repo d576475
                    3: "skip-default-eq-conflates-types", 4: "json-nonfinite-float", 5: "unprintable-str",
-                   6: "comments-reemit", 7: "enum-member-null", 8: "default-not-normalised"}
+                   6: "comments-reemit", 7: "enum-member-null", 8: "default-not-normalised",
+                   9: "skip-default-none-default-crash", 10: "skip-default-drops-dict-kwargs"}
+# class 11 (skip_default pruned the init_args of a subclass spec) is outside the proved statement but NOT a finding: a
+# failure there is reported as a violation
 
 # ---------------------------------------------------------------------------------------------------------------------
 # generators
@@ -79,6 +82,13 @@ DATACLASSES = [
                ("mode", ["union", ["int", "str"]], "auto")]),
 ]
 DC_FIELDS = dict(DATACLASSES)
+# subclass-typed arguments: base -> admissible classes (class_path as the parser normalises it: the runner is __main__)
+# with the constructor parameters jsonargparse resolves (own first, then those reached through **kwargs); the classes
+# themselves are written out in tie/impl/c01_roundtrip.py
+BASE_PARAMS = [("a", "int", 1), ("name", ["opt", "str"], None)]
+SUBCLASSES = {"Base": [("__main__.Base", BASE_PARAMS),
+                       ("__main__.Sub", [("b", "int", 2), ("flag", ["opt", "bool"], True)] + BASE_PARAMS),
+                       ("__main__.KW", [])]}
 
 BASE = ["str", "int", "float", "bool"]
 UNIONS = [["int", "str"], ["str", "int"], ["float", "str"], ["str", "float"], ["int", "float"], ["float", "int"],
@@ -105,6 +115,8 @@ def gen_type(rng, depth=0, hashable=False):
             return "any"
         if r2 < 0.30:
             return ["dc", rng.choice(["Limits", "Limits", "Sched"])]
+        if r2 < 0.40 and depth == 0:
+            return ["sub", "Base"]
         return rng.choice(BASE + ["str"])
     if hashable:
         return ["tuple", [gen_type(rng, 2, True) for _ in range(rng.randint(1, 2))]] if r < 0.5 else gen_type(rng, 2, True)
@@ -122,6 +134,10 @@ def gen_type(rng, depth=0, hashable=False):
 
 def has_dc(t):
     return "\"dc\"" in json.dumps(t)
+
+
+def has_sub(t):
+    return "\"sub\"" in json.dumps(t)
 
 
 def gen_str(rng):
@@ -205,6 +221,20 @@ def gen_value(rng, t):
             else:
                 v[fname] = gen_value(rng, ftype)
         return v
+    if k == "sub":
+        cp, params = rng.choice(SUBCLASSES[t[1]])
+        v = {"class_path": cp if rng.random() < 0.6 else cp.split(".")[-1]}
+        ia = {}
+        for pname, ptype, pdef in params:
+            r = rng.random()
+            if r < 0.4:
+                continue
+            ia[pname] = None if (r < 0.55 and isinstance(ptype, list) and ptype[0] == "opt") else gen_value(rng, ptype)
+        if ia or (params and rng.random() < 0.2):
+            v["init_args"] = ia
+        if (not params and rng.random() < 0.8) or rng.random() < 0.1:
+            v["dict_kwargs"] = {rng.choice(["k", "z", "depth"]): rng.choice([1, 7, "x", "a b", True, {"$f": "2.5"}]) for _ in range(rng.randint(1, 2))}
+        return v
     if k == "lit":
         return rng.choice(t[1])
     if k == "enum":
@@ -214,6 +244,21 @@ def gen_value(rng, t):
 
 def nearby(rng, t, d):
     """a value close to the default d (same dict with one item changed, 1 for 1.0, ...) — what skip_default must keep"""
+    if isinstance(d, dict) and "class_path" in d:      # a subclass spec close to the default spec
+        r = rng.random()
+        cp = d["class_path"]
+        params = dict((c, p) for c, p in SUBCLASSES["Base"])[cp]
+        if r < 0.25:
+            return json.loads(json.dumps(d))
+        if r < 0.5:
+            return dict(json.loads(json.dumps(d)), dict_kwargs={"k": rng.choice([1, "x"])})
+        if r < 0.75 and params:
+            pname, ptype, _ = rng.choice(params)
+            ia = dict(d.get("init_args", {}))
+            ia[pname] = gen_value(rng, ptype)
+            return {"class_path": cp, "init_args": ia}
+        other = rng.choice([c for c, _ in SUBCLASSES["Base"] if c != cp])
+        return {"class_path": other}
     if isinstance(d, dict) and "$f" in d:
         x = float(d["$f"])
         if abs(x) < 1e15 and x == int(x) and rng.random() < 0.7:
@@ -239,6 +284,12 @@ def nearby(rng, t, d):
     if isinstance(d, list) and d:
         return [nearby(rng, "int", x) if rng.random() < 0.5 else x for x in d]
     return gen_value(rng, t)
+
+
+def to_plain(v):
+    """typed tagged value -> the JSON-like value a config file would hold"""
+    return json.loads(to_argv_text(v, top=False).replace("-.inf", "-Infinity").replace(".inf", "Infinity").replace(".nan", "NaN")) \
+        if not isinstance(v, str) else v
 
 
 def to_argv_text(v, top=True):
@@ -356,6 +407,11 @@ def random_case(rng):
         t = no_bare_dc(gen_type(rng))
         r = rng.random()
         d = None if r < 0.3 or has_dc(t) else gen_value(rng, t)
+        if has_sub(t):            # a spec as the parser itself would hold it: full class_path, no dict_kwargs
+            d = None if r < 0.4 else rng.choice([{"class_path": "__main__.Base", "init_args": {"a": 5}}, {"class_path": "__main__.KW"},
+                                                 {"class_path": "__main__.Sub", "init_args": {"b": 3, "name": "n"}}])
+            if rng.random() < 0.3:
+                t = ["opt", t]
         if '"nan"' in json.dumps(d):      # `==` on containers holding the very same nan object is identity-based
             d = None
         r2 = rng.random()
@@ -368,7 +424,48 @@ def random_case(rng):
         else:
             v = gen_value(rng, t)
         leaves.append((key, t, d, v))
-    return make_case(rng, leaves, variant)
+    hist = None
+    if rng.random() < 0.25:
+        hist = gen_history(rng, leaves, variant)
+        changed = [k for st in hist if st["op"] == "set_defaults" for k, _ in st["values"]]
+        if changed and rng.random() < 0.7:      # the configuration sets the key back to its OLD default
+            leaves = [(k, t, d, d if k in changed and d is not None else v) for k, t, d, v in leaves]
+    case = make_case(rng, leaves, variant)
+    if hist:
+        case["history"] = hist
+    return case
+
+
+def gen_history(rng, leaves, variant):
+    """what was done with the same parser object before: dumps (also skip_default) of its defaults, an earlier parse, then
+    possibly a change of the defaults (set_defaults / a default config file) — the configuration of the case often sets a
+    key to its OLD default afterwards (leaves carry the old default; the judge sees the defaults in force at the end)"""
+    hist = []
+    sd = bool(variant.get("skip_default")) or variant.get("flags") == "skip_default"
+    for _ in range(rng.randint(1, 2)):
+        r = rng.random()
+        if r < 0.6:
+            hist.append({"op": "dump", "format": rng.choice(["yaml", "json"]), "skip_none": rng.random() < 0.3,
+                         "skip_default": sd if rng.random() < 0.8 else not sd})
+        else:
+            hist.append({"op": "parse", "obj": {}})
+    cand = [(k, t, d) for k, t, d, v in leaves if not has_dc(t) and not has_sub(t)]
+    if cand and rng.random() < 0.8:
+        k, t, d = rng.choice(cand)
+        newd = gen_value(rng, t)
+        if '"nan"' in json.dumps(newd):
+            newd = None
+        if rng.random() < 0.7:
+            hist.append({"op": "set_defaults", "values": [[k, newd]]})
+        else:
+            content = {}
+            cur = content
+            parts = k.split(".")
+            for p in parts[:-1]:
+                cur = cur.setdefault(p, {})
+            cur[parts[-1]] = to_plain(newd)
+            hist.append({"op": "default_config", "content": content})
+    return hist
 
 
 STR_TYPES = ["str", ["opt", "str"], ["union", ["int", "str"]], ["union", ["str", "int"]], ["union", ["float", "str"]],
@@ -442,6 +539,29 @@ def sweep_cases(rng, tier):
     for key, t, d, v in dvals:
         for var in keep:
             cases.append(make_case(rng, [(key, t, d, v), ("seed", ["opt", "int"], 7, 3)], dict(var)))
+    # subclass-typed arguments: every class, init_args given / left out / null, dict_kwargs, over a None and a spec default
+    svals = [{"class_path": "Sub"}, {"class_path": "__main__.Sub", "init_args": {"b": 3, "name": None, "flag": None}},
+             {"class_path": "__main__.Base", "init_args": {"name": "1e3"}}, {"class_path": "KW", "dict_kwargs": {"k": 1, "s": "a b"}},
+             {"class_path": "__main__.KW"}, {"class_path": "Sub", "init_args": {"a": 5}, "dict_kwargs": {"z": "x"}}]
+    sdefs = [None, {"class_path": "__main__.Base", "init_args": {"a": 5}}, {"class_path": "__main__.KW"}]
+    for sv in svals:
+        for sdf in sdefs:
+            for var in keep:
+                if tier == "quick" and rng.random() < 0.5:
+                    continue
+                t = ["sub", "Base"] if rng.random() < 0.7 else ["opt", ["sub", "Base"]]
+                cases.append(make_case(rng, [("m", t, sdf, sv), ("seed", ["opt", "int"], 7, 3)], dict(var)))
+    # histories: the same parser object dumped (skip_default) before its defaults change; the configuration then sets the OLD default
+    for t, d_old, d_new in [("float", {"$f": "0.1"}, {"$f": "0.5"}), ("str", "a", "1e3"), (["opt", "int"], 5, None),
+                            (["list", "str"], ["x"], []), (["dict", "int"], {"a": 1}, {"a": 2})]:
+        for var in keep:
+            for change in ("set_defaults", "default_config"):
+                h = [{"op": "dump", "format": "yaml", "skip_none": False, "skip_default": True}]
+                h.append({"op": "set_defaults", "values": [["lr", d_new]]} if change == "set_defaults"
+                         else {"op": "default_config", "content": {"lr": to_plain(d_new)}})
+                c = make_case(rng, [("lr", t, d_old, d_old), ("n", "int", 1, 2)], dict(var))
+                c["history"] = h
+                cases.append(c)
     # the designed findings, in their smallest form
     cases.append(make_case(rng, [("k", ["opt", "int"], 5, None)], {"kind": "save", "format": "yaml"}))
     cases.append(make_case(rng, [("d", ["dict", "int"], {"a": 1, "b": 3}, {"a": 1, "b": 2})],
@@ -555,6 +675,10 @@ def g_ty(t):
         return "(CLit %s)" % g_list([g_val(x) for x in t[1]], "val")
     if k == "enum":
         return "(CEnum %s %s)" % (g_str(t[1]), g_list([g_str(m) for m in ENUM_MEMBERS[t[1]]], "str"))
+    if k == "sub":
+        return "(CSub %s)" % g_list(["(%s, CData %s)" % (g_str(cp), g_list(["(%s, %s, %s)" % (g_str(n), g_ty(ft), g_val(fd))
+                                                                             for n, ft, fd in params], "(str * cty * val)"))
+                                     for cp, params in SUBCLASSES[t[1]]], "(str * cty)")
     if k == "dc":
         return "(CData %s)" % g_list(["(%s, %s, %s)" % (g_str(n), g_ty(ft), g_val(fd)) for n, ft, fd in DC_FIELDS[t[1]]],
                                      "(str * cty * val)")
@@ -656,6 +780,7 @@ def category(case, obs):
 
 def describe(case, obs):
     return {"declaration (name -> type, default; nested groups)": case["decl"],
+            "history of the parser object before": case.get("history", []),
             "input": case.get("argv", case.get("obj")),
             "variant": case["variant"],
             "accepted configuration": obs.get("cfg0"),
